@@ -937,6 +937,11 @@ func registerQFacts(qf, bv, body *Term, reads []traceRead) {
 	seenF := map[string]bool{}
 	loose := len(reads) == 0
 	for _, rd := range reads {
+		if rd.abs.W != bv.W {
+			// a read at a key of another width (a map read at a 16-byte key inside a quantifier over indices): it
+			// cannot be of the form shift + k
+			continue
+		}
 		shift := subst(rd.abs, bv.Leaf, BVu(0, 64))
 		if Add(shift, bv).String() != rd.abs.String() && Add(bv, shift).String() != rd.abs.String() {
 			// not of the form shift + k (k scaled, or behind a case split): no read site determines the instance;
